@@ -42,6 +42,11 @@ theorem dimU_sub (u w : U) : dimU (u - w) = dimU u - dimU w := by
   apply dim3_ext <;> simp only [dim3_sub_v, dim3_sub_a, dim3_sub_t, dimU, u_sub_volt, u_sub_ampere,
     u_sub_ohm, u_sub_siemens, u_sub_watt, u_sub_hertz, u_sub_second] <;> omega
 
+theorem dimU_smul (n : Int) (u : U) :
+    dimU (U.smul n u) = ⟨n * (dimU u).v, n * (dimU u).a, n * (dimU u).t⟩ := by
+  apply dim3_ext <;> simp only [dimU, U.smul] <;>
+    simp only [Int.mul_add, Int.mul_sub]
+
 theorem dimU_one : dimU U.one = Dim3.zero := by decide
 
 theorem va_add (x y : Dim3) : (x + y).va = addVA x.va y.va := rfl
